@@ -61,7 +61,10 @@ Record c09_case := {
   k_impl : list (xout nat);           (* implementation: output of every step *)
   k_raw : raw_caches;                 (* implementation: the raw caches after the history (all empty when uncached) *)
   k_raw_exact : bool;                 (* compare them entry by entry with the model's caches as well *)
-  k_final : list (out nat)            (* implementation: all queries on the final state, then elements *)
+  k_final : list (out nat);           (* implementation: all queries on the final state, then elements *)
+  k_sib_n : nat;                      (* aliasing probe: number of sibling posets built from the SAME children_dict object *)
+  k_sib : list (out nat)              (* implementation: all queries on each sibling after the history on the main object
+                                         (and after the handed-in dictionary was mutated), concatenated *)
 }.
 
 Definition c09_init (c : c09_case) : option (state nat) :=
@@ -69,6 +72,11 @@ Definition c09_init (c : c09_case) : option (state nat) :=
   | Some cd => if k_cache c then init_cd nat (k_init c) cd else Some (init nat (k_init c) false)
   | None => Some (init nat (k_init c) (k_cache c))
   end.
+
+(* a sibling built from the same initial list / dictionary is a separate object: it answers as a
+   freshly constructed one, whatever happened to the main object or to the dictionary *)
+Definition sibling_answers (c : c09_case) (one : list (out nat)) : list (out nat) :=
+  concat (repeat one (k_sib_n c)).
 
 Definition c09_model (c : c09_case) : option (list (xout nat) * list (out nat) * bool) :=
   let leq := mleq (k_matrix c) in
@@ -78,8 +86,10 @@ Definition c09_model (c : c09_case) : option (list (xout nat) * list (out nat) *
       let '(s1, outs) := xrun nat leq Nat.eqb s0 (k_ops c) in
       let '(s2, fin) := run nat leq Nat.eqb s1 (final_queries (length (els s1))) in
       let r := k_raw c in
+      let '(sf, f0) := run nat leq Nat.eqb s0 (final_queries (length (els s0))) in
       Some (outs, fin ++ [OEls (els s2)],
-            negb (k_raw_exact c) || caches_same nat (r_leq r) (r_desc r) (r_anc r) (r_ch r) (r_par r) s1)
+            (negb (k_raw_exact c) || caches_same nat (r_leq r) (r_desc r) (r_anc r) (r_ch r) (r_par r) s1) &&
+            outs_eqb (k_sib c) (sibling_answers c (f0 ++ [OEls (els sf)])))
   end.
 
 (* answers of the cache-free machine, and whether the implementation's raw caches are sound
@@ -89,7 +99,10 @@ Definition c09_spec (c : c09_case) : list (xout nat) * list (out nat) * bool :=
   let '(e1, outs) := xspec_run nat leq Nat.eqb (k_init c) (k_cache c) (k_ops c) in
   let r := k_raw c in
   (outs, map (spec_query nat leq Nat.eqb e1 (k_cache c)) (final_queries (length e1)) ++ [OEls e1],
-   raw_sound nat leq e1 (r_leq r) (r_desc r) (r_anc r) (r_ch r) (r_par r)).
+   raw_sound nat leq e1 (r_leq r) (r_desc r) (r_anc r) (r_ch r) (r_par r) &&
+   outs_eqb (k_sib c)
+            (sibling_answers c (map (spec_query nat leq Nat.eqb (k_init c) (k_cache c)) (final_queries (length (k_init c)))
+                                ++ [OEls (k_init c)]))).
 
 Definition c09_check (c : c09_case) : nat :=
   let same := match c09_model c with
